@@ -206,6 +206,11 @@ struct Dumper {
         if (isa<ParmVarDecl>(VD)) o["parm"] = true;
         o["declType"] = typeStr(VD->getType());
         if (VD->getType()->isReferenceType()) o["ref"] = true;
+        if (VD->hasGlobalStorage()) {
+          o["globalStorage"] = true;
+          if (VD->getTLSKind() != VarDecl::TLS_None) o["tls"] = true;
+          if (VD->getType().isConstQualified() || VD->isConstexpr()) o["constVar"] = true;
+        }
       }
       if (auto *EC = dyn_cast<EnumConstantDecl>(D))
         o["enumValue"] = (int64_t)EC->getInitVal().getExtValue();
